@@ -584,6 +584,29 @@ func runConditionalCompute(modality string, tr []bool) periodCase {
 	return periodCase{Name: modality, Trace: obs, Codes: reportsOf(&res, "al"), Panic: problem(&res, false)}
 }
 
+// runTwoClauses: the auditor has two computes clauses over different signals
+// and the predicate reads the later one; the events only ever sample the later
+// clause's signal: the first clause has nothing to do in any round, the
+// second one and the predicate are processed all the same.  A computed
+// variable is observed once more in the final round.
+func runTwoClauses(modality string, tr []bool) periodCase {
+	cfg := "role r\n  :noop true\n  spotlight true\n  signal s scalar at (?P<ts_now>)s=(?P<scalar>\\d+)\n  signal a scalar at (?P<ts_now>)a=(?P<scalar>\\d+)\nend\ncast\n  x plays r\nend\n" +
+		"audience\n  al audits throughout\n  al computes u as [x a] * 2\n  al computes v as [x s]\n  al expects " + modality + ": v > 3\nend\n"
+	var evs []cmd.VerifEvent
+	ts := 0.0
+	for _, b := range tr {
+		ts += 0.5
+		evs = append(evs, sample(ts, b))
+	}
+	evs = append(evs, cmd.VerifEvent{Kind: "final", Ts: ts + 1.2871})
+	res := cmd.VerifAuditLoop(cfg, evs, false)
+	obs := append([]bool(nil), tr...)
+	if len(tr) > 0 {
+		obs = append(obs, tr[len(tr)-1])
+	}
+	return periodCase{Name: modality, Trace: obs, Codes: reportsOf(&res, "al"), Panic: problem(&res, false)}
+}
+
 type period3Case struct {
 	Name  string
 	Trace []int // 0 false, 1 true, 2 the predicate does not evaluate
@@ -758,6 +781,9 @@ func main() {
 					tr[i] = bits&(1<<uint(i)) != 0
 				}
 				audPeriods = append(audPeriods, runLateStamps(n, tr))
+				if l <= 3 {
+					audPeriods = append(audPeriods, runTwoClauses(n, tr))
+				}
 				if l <= 3 {
 					audPeriods = append(audPeriods, runConditionalCompute(n, tr))
 				}
